@@ -46,6 +46,7 @@ func NewReader(r io.Reader) io.ReadCloser {
 		rr.rBuf = br
 	} else {
 		rr.rBuf = bufio.NewReader(r)
+		rr.ownBuf = true
 	}
 	return rr
 }
@@ -61,17 +62,23 @@ type decompressor struct {
 	peekSize      int
 	eof           bool
 	haveBits      bool // the last decoding step did not stop for lack of input
+	ownBuf        bool // rBuf was allocated here; a caller's bufio.Reader is never re-targeted
 }
 
 func (r *decompressor) Reset(under io.Reader, _ []byte) error {
 	r.r = under
 	if ur, ok := under.(*bufio.Reader); ok {
 		r.rBuf = ur
+		r.ownBuf = false
 	} else {
-		if r.rBuf != nil {
+		// only a buffer allocated here may be re-targeted: Reset on a bufio.Reader the
+		// caller passed in earlier would throw away the caller's buffered data and make
+		// that buffer read from the new source
+		if r.rBuf != nil && r.ownBuf {
 			r.rBuf.Reset(under)
 		} else {
 			r.rBuf = bufio.NewReader(under)
+			r.ownBuf = true
 		}
 	}
 
